@@ -91,7 +91,9 @@ Definition scheme_test (candidate : str) : bool :=
   if c_min_iri_rule_bare then bare_scheme_match candidate
   else prefixb c_min_iri_http_prefix candidate && (pylen candidate <? c_min_iri_http_len).
 
-Definition determine (longest_common_prefix : str) : option str :=
+(** the body of the function below its (optional) first test: the cut at the
+    last separator and the two acceptance tests *)
+Definition determine_cut (longest_common_prefix : str) : option str :=
   let backwards_str := rev longest_common_prefix in                    (* [::-1] *)
   match search_sep backwards_str with
   | None => None
@@ -101,6 +103,19 @@ Definition determine (longest_common_prefix : str) : option str :=
     else if scheme_test candidate then None
     else Some candidate
   end.
+
+(** the first test, [if longest_common_prefix.startswith("_:"): return None]:
+    every instance is a blank node, their labels are not IRIs (repair of finding
+    C09-F3).  gen_consts.py recognises the function with and without it
+    ([c_min_iri_skips_bnode_prefix]; the marker [c_min_iri_bnode_prefix] is the
+    literal of the test, an inert placeholder when the test is absent).
+    [str.startswith] on an ASCII marker is the byte-wise prefix test. *)
+Definition bnode_prefix_test (longest_common_prefix : str) : bool :=
+  c_min_iri_skips_bnode_prefix && prefixb c_min_iri_bnode_prefix longest_common_prefix.
+
+Definition determine (longest_common_prefix : str) : option str :=
+  if bnode_prefix_test longest_common_prefix then None
+  else determine_cut longest_common_prefix.
 
 (** the stem printed for a class whose instances are [iris] (in order) *)
 Definition stem (iris : list str) : option str := determine (fold_min_iri iris).
